@@ -194,5 +194,7 @@ impl MemcacheBinaryCodec {
 
 //@closed protocol/binary_codec.rs | impl Decoder for MemcacheBinaryCodec
 
+//@probeinclude probes_bytes.rs
+
 } // verus!
 fn main() {}
